@@ -13,6 +13,7 @@ tree does not have them (helper merged, renamed, turned into a class; body re-wr
 and their reach requirements waived through anchor_missing.*; the differential oracle uses public calls only."""
 import json
 import math
+from fractions import Fraction
 
 from ..statemon import Reach, FPMonitor
 
@@ -45,6 +46,9 @@ LEVEL_NOTE = ('Trusted: numpy; the direct route neutron_sld is the oracle the pr
 SHARDS = {'quick': 4, 'thorough': 16}
 TIMEOUT = {'quick': 300, 'thorough': 2400}
 ASSUMPTIONS = ['weights are numpy arrays (the documented "vector of weights"; a Python list fails on weights[:, None])',
+               'integer (int64) weight arrays are generated only while weight x atoms per material, summed over the materials, '
+               'stays below 1e18: beyond 2**63 numpy wraps an int64 array silently whatever the library does with it (found by '
+               'the thorough tier: weights [10**15, 0] on a material of 9276 atoms); float weights are not capped',
                'materials are non-empty Formula objects; wavelength arguments are Python/numpy scalars, lists or 1-d arrays; a 0-d numpy '
                'array counts as a scalar (the direct route treats it as one): finding c17.zero-dim-wavelength',
                'tolerance 1e-10 relative; incoherent SLD additionally |d| <= 1e-7*(|rho_re|+rho_im) (DESIGN 3.7); real SLD '
@@ -310,8 +314,15 @@ def _case(ctx, index, G, uni, table):
             if kind == 'ints' and rng.random() < 0.35:
                 # whole-number amounts of a large sample (an integer weight array): billions of formula units, so that
                 # the cell holds far more than 2**31.5 atoms - integer arithmetic inside the calculator must not wrap
-                f = rng.choice([10 ** 6, 10 ** 8, 3 * 10 ** 9, 10 ** 10, 10 ** 12])
-                wts = [x * f for x in wts]
+                # ... while every product the calculator can form (weight x atoms of a material, summed) stays far
+                # inside int64: beyond 2**63 an int64 weight array wraps in numpy itself, which is the caller's
+                # choice of dtype, not the library's arithmetic (see ASSUMPTIONS)
+                atoms_tot = sum(float(Fraction(a[3])) for m_ in mats for a in m_['atoms'])
+                cands = [f for f in (10 ** 6, 10 ** 8, 3 * 10 ** 9, 10 ** 10, 10 ** 12)
+                         if max(wts) * f * max(atoms_tot, 1.0) * len(mats) < 1e18]
+                if cands:
+                    f = rng.choice(cands)
+                    wts = [x * f for x in wts]
             if kind != 'ints' and rng.random() < 0.25:
                 # the same proportions as absolute amounts of a very small / very large sample: only an exactly
                 # zero total weight is a vacuum
